@@ -72,6 +72,15 @@ def harness(eng, ctx):
         return
     eng.prove(arr[0] == val, 'C15: array and scalar arguments give the same value')
     eng.prove(arr[1] == tmin, 'C15: array element at the lowest knot is the minimum')
+    # an array that is neither ascending nor descending: every element is the value of its own level
+    try:
+        arr3 = T(nplite.array([zs[0], w, zs[0] - 5]))
+    except Exception as e:
+        eng.fail_exception(e, label='C15: array argument fails')
+        return
+    eng.prove(arr3[0] == tmin, 'C15: each element of an unordered array is the value at its own level', detail='array [lowest knot, w, lowest knot - 5], element 0')
+    eng.prove(arr3[1] == val, 'C15: each element of an unordered array is the value at its own level', detail='array [lowest knot, w, lowest knot - 5], element 1')
+    eng.prove(arr3[2] == tmin, 'C15: each element of an unordered array is the value at its own level', detail='array [lowest knot, w, lowest knot - 5], element 2')
     # whole-millimetre levels given as an integer array
     wi = eng.int('w_int')
     eng.assume(wi <= zs[-1])
@@ -149,6 +158,13 @@ def replay_concrete(n, m):
             info['real_exception'] = '%s: %s' % (type(e).__name__, e)
             return False, info
     ok = abs(v - want) <= 1e-6 * max(1.0, abs(want)) and abs(float(arr[0]) - v) <= 1e-12 * max(1.0, abs(v)) and float(arr[1]) == tmin
+    try:
+        arr3 = [float(x) for x in T(np.array([zs[0], w, zs[0] - 5]))]
+        info['unordered_array'] = arr3
+        ok = ok and arr3[0] == tmin and abs(arr3[1] - v) <= 1e-9 * max(1.0, abs(v)) and arr3[2] == tmin
+    except Exception as e:
+        info['real_exception'] = '%s: %s' % (type(e).__name__, e)
+        return False, info
     return ok, info
 
 
